@@ -66,6 +66,7 @@ class FakeSocket:
         self.out_at_close = None
         self.addr = None
         self.mode = 'exact'    # meaning of sendscript entries >= 0, see send()
+        self.was_reset = False
 
     def __repr__(self):
         return '<FakeSocket %s fd=%d>' % (self.name, self.fd)
@@ -88,6 +89,8 @@ class FakeSocket:
             raise BlockingIOError(errno.EAGAIN, 'would block')
         item = self.inq.pop(0)
         if isinstance(item, BaseException):
+            if isinstance(item, ConnectionResetError):
+                self.was_reset = True
             raise item
         if len(item) > n:
             self.inq.insert(0, item[n:])
@@ -152,6 +155,8 @@ class FakeSocket:
         if self.closed:
             self.misuse.append('shutdown')
             raise OSError(errno.EBADF, 'Bad file descriptor')
+        if self.was_reset:
+            raise OSError(errno.ENOTCONN, 'Transport endpoint is not connected')      # what shutdown() does after an RST
         self.shut = True
 
     def close(self):
@@ -257,8 +262,14 @@ class FakeSelector:
         self.closed = True
 
 
+TASK_ORDER = [0]      # 0: finished tasks are handed back in creation order, 1: in reverse creation order
+_TASK_SEQ = [0]
+
+
 class FakeTask:
     def __init__(self, coro):
+        _TASK_SEQ[0] += 1
+        self.seq = _TASK_SEQ[0]
         self._exc = None
         self._res = None
         try:
@@ -287,7 +298,10 @@ class FakeLoop:
 
 
 async def fake_wait(tasks, timeout=None, return_when=None):
-    return set(tasks), set()
+    # asyncio.wait returns a SET of finished tasks: their iteration order is arbitrary. The stub hands them back
+    # in creation order or in reverse creation order (TASK_ORDER, chosen by the harness / solver).
+    done = sorted(tasks, key=lambda t: t.seq, reverse=bool(TASK_ORDER[0]))
+    return done, set()
 
 
 class ClockModule:
